@@ -767,6 +767,11 @@ pub fn mig_grid() -> Vec<History> {
     msgs.push(MigrateMsg { ask_required_attributes: Some(vec![s("kyc")]), bid_required_attributes: Some(vec![]), ..none.clone() });
     // the stored rates restated (same numbers, other spelling) with other accounts
     msgs.push(MigrateMsg { bid_fee_rate: Some(s("0.10")), bid_fee_account: Some(s("bidfee2")), ask_fee_rate: Some(s("0.050")), ask_fee_account: Some(s("askfee2")), ..none.clone() });
+    // one side replaced while the other is removed; rates written with more fractional digits than a
+    // 96-bit decimal keeps (`from_str` rounds them back, `from_str_exact` would refuse them)
+    msgs.push(MigrateMsg { ask_fee_rate: Some(s("0.03")), ask_fee_account: Some(s("askfee2")), bid_fee_rate: Some(s("")), bid_fee_account: Some(s("")), ..none.clone() });
+    msgs.push(MigrateMsg { bid_fee_rate: Some(s("0.002500000000000000000000000000")), bid_fee_account: Some(s("bidfee2")), ..none.clone() });
+    msgs.push(MigrateMsg { ask_fee_rate: Some(s("0.0500000000000000000000000000000")), ask_fee_account: Some(s("askfee2")), bid_fee_rate: Some(s("0.2")), bid_fee_account: Some(s("bidfee2")), ..none.clone() });
     let mut out = vec![];
     for (vi, ver) in versions.iter().enumerate() {
         for (si, sh) in shapes.iter().enumerate() {
